@@ -228,10 +228,16 @@ def run_impl(case):
         before_arr = [np.array(v.pose) for v in vs]
         orig = gmod.spsolve
         gmod.spsolve = fake_spsolve
+        raised = None
         try:
             g.optimize(tol=0.0, max_iter=1, fix_first_pose=ffp, verbose=False)
+        except Exception as ex:  # noqa   (the model never fails on a graph that was constructed)
+            raised = ex
         finally:
             gmod.spsolve = orig
+        if raised is not None:
+            out.append((ecase, {'status': 9, 'detail': 'optimize() raised %r on a graph that was constructed (optimizer call %d)' % (raised, st)}))
+            break
         fixed_after = list(intended)
         flags_now = [bool(v.fixed) for v in vs]
         # expected motion: pose [+] dx-slice for the non-fixed vertices, bitwise; fixed vertices untouched
